@@ -26,10 +26,17 @@
 (*   "ArgsMemoised"   the IPLD form of the arguments that were checked     *)
 (*                    first is kept on the token and reused by later calls *)
 (*   "VerdictCached"  a positive verdict is remembered                     *)
+(*   "ProofsCached"   the delegations loaded by an earlier call are kept   *)
+(*                    on the token; the loader given to a later call is    *)
+(*                    not consulted                                        *)
+(* Each call is also given a loader (C01: "every referenced delegation can *)
+(* be loaded" - by the loader of THIS call): "full" holds every delegation *)
+(* of the chain, "none" has lost them (withdrawn / another store).         *)
 (***************************************************************************)
 EXTENDS Chain
 
-CONSTANTS Hooks,        \* hooks a check may use
+CONSTANTS Stores,       \* loaders a check may be given: subset of {"full", "none"}
+          Hooks,        \* hooks a check may use
           MaxChecks,    \* checks per behaviour
           SessLinks     \* set of proof lists (sequences of links) to start from
 
@@ -37,19 +44,23 @@ VARIABLES log,          \* <<[now, hook, verdict]>>: what each check returned
           memo          \* what the token remembers between calls
 svars == <<inv, links, now, v, log, memo>>
 
-NoMemo == [chainOK |-> FALSE, arg |-> -1, allowed |-> FALSE]
+NoMemo == [chainOK |-> FALSE, arg |-> -1, allowed |-> FALSE, loaded |-> FALSE]
+
+\* the proof list as the loader st resolves it
+Seen(st) == IF st = "full" THEN links ELSE [k \in 1..Len(links) |-> [links[k] EXCEPT !.missing = TRUE]]
 
 HookOfPoint(p) == CASE p = 0 -> "c0" [] p = 1 -> "c1" [] p = 2 -> "c2" [] p = 3 -> "empty"
 
 \* the verdict of one call on the token with hook h, given what the token remembers
-CallVerdict(h) ==
+CallVerdict(h, st) ==
   LET invh   == [inv EXCEPT !.hook = h]
+      lk     == IF "ProofsCached" \in Deviations /\ memo.loaded THEN links ELSE Seen(st)
       effArg == IF "ArgsMemoised" \in Deviations /\ memo.arg # -1 THEN memo.arg ELSE HookArg(invh)
       inve   == [inv EXCEPT !.hook = HookOfPoint(effArg)]
   IN IF "VerdictCached" \in Deviations /\ memo.allowed THEN "allowed"
      ELSE IF "ChainCached" \in Deviations /\ memo.chainOK
           THEN IF PolicyRules(inve, links) THEN "allowed" ELSE "policy"
-          ELSE Validate(inve, links, now)
+          ELSE Validate(inve, lk, now)
 
 ReachedArgs(verdict) == verdict \in {"allowed", "policy"}
 
@@ -60,11 +71,12 @@ SInit == /\ inv \in {NormAud(x) : x \in InvDom}
          /\ log = <<>>
          /\ memo = NoMemo
 
-Check(h) ==
+Check(h, st) ==
   /\ Len(log) < MaxChecks
-  /\ LET verdict == CallVerdict(h) IN
-     /\ log' = Append(log, [now |-> now, hook |-> h, verdict |-> verdict])
-     /\ memo' = [chainOK |-> memo.chainOK \/ ReachedArgs(verdict),
+  /\ LET verdict == CallVerdict(h, st) IN
+     /\ log' = Append(log, [now |-> now, hook |-> h, store |-> st, verdict |-> verdict])
+     /\ memo' = [loaded  |-> memo.loaded \/ verdict # "missing",
+                 chainOK |-> memo.chainOK \/ ReachedArgs(verdict),
                  arg     |-> IF memo.arg = -1 /\ ReachedArgs(verdict) THEN HookArg([inv EXCEPT !.hook = h]) ELSE memo.arg,
                  allowed |-> memo.allowed \/ verdict = "allowed"]
   /\ UNCHANGED <<inv, links, now, v>>
@@ -73,22 +85,24 @@ STick == /\ Len(log) < MaxChecks
          /\ \E t \in NowDom : t > now /\ (\A u \in NowDom : u > now => t <= u) /\ now' = t
          /\ UNCHANGED <<inv, links, v, log, memo>>
 
-SNext == (\E h \in Hooks : Check(h)) \/ STick
+SNext == (\E h \in Hooks, st \in Stores : Check(h, st)) \/ STick
 SSpec == SInit /\ [][SNext]_svars
 
 ---------------------------------------------------------------------------
 \* Every check returned what a fresh token would have returned at that instant with that hook.
 Historyless ==
   \A k \in 1..Len(log) :
-    log[k].verdict = Validate([inv EXCEPT !.hook = log[k].hook], links, log[k].now)
+    log[k].verdict = Validate([inv EXCEPT !.hook = log[k].hook], Seen(log[k].store), log[k].now)
 
 \* the property-level consequences, stated directly
 SessSoundTime ==        \* C04
-  \A k \in 1..Len(log) : log[k].verdict = "allowed" => TimeRules(inv, links, log[k].now)
+  \A k \in 1..Len(log) : log[k].verdict = "allowed" => TimeRules(inv, Seen(log[k].store), log[k].now)
+SessSoundPrincipals ==  \* C01: every delegation is loadable from the loader of this call
+  \A k \in 1..Len(log) : log[k].verdict = "allowed" => PrincipalRules(inv, Seen(log[k].store))
 SessSoundPolicies ==    \* C03
-  \A k \in 1..Len(log) : log[k].verdict = "allowed" => PolicyRules([inv EXCEPT !.hook = log[k].hook], links)
+  \A k \in 1..Len(log) : log[k].verdict = "allowed" => PolicyRules([inv EXCEPT !.hook = log[k].hook], Seen(log[k].store))
 SessComplete ==         \* C05
-  \A k \in 1..Len(log) : AllRules([inv EXCEPT !.hook = log[k].hook], links, log[k].now) => log[k].verdict = "allowed"
+  \A k \in 1..Len(log) : AllRules([inv EXCEPT !.hook = log[k].hook], Seen(log[k].store), log[k].now) => log[k].verdict = "allowed"
 
 \* chains of 1..n links over a link domain, all aligned on the principals of C04_Inv / C03_Inv
 SeqsUpTo(S, n) == UNION {[1..k -> S] : k \in 1..n}
@@ -96,9 +110,10 @@ SeqsUpTo(S, n) == UNION {[1..k -> S] : k \in 1..n}
 SEmit == Len(log) = MaxChecks =>
   PrintT(ToJson([inv |-> inv, links |-> links,
                  steps |-> [k \in 1..Len(log) |->
-                              [now |-> log[k].now, hook |-> log[k].hook, verdict |-> log[k].verdict,
+                              [now |-> log[k].now, hook |-> log[k].hook, store |-> log[k].store, verdict |-> log[k].verdict,
                                allowed |-> log[k].verdict = "allowed",
-                               rules |-> [pol |-> PolicyRules([inv EXCEPT !.hook = log[k].hook], links),
-                                          t |-> TimeRules(inv, links, log[k].now),
-                                          all |-> AllRules([inv EXCEPT !.hook = log[k].hook], links, log[k].now)]]]]))
+                               rules |-> [p |-> PrincipalRules(inv, Seen(log[k].store)),
+                                          pol |-> PolicyRules([inv EXCEPT !.hook = log[k].hook], Seen(log[k].store)),
+                                          t |-> TimeRules(inv, Seen(log[k].store), log[k].now),
+                                          all |-> AllRules([inv EXCEPT !.hook = log[k].hook], Seen(log[k].store), log[k].now)]]]]))
 =============================================================================
